@@ -18,7 +18,7 @@ from ref import cfdp as R
 from units import cfdp_pdu as U
 
 PROPERTY = "C12"
-LEVEL = "exploration"
+LEVEL = "model_checking"  # bounded-exhaustive enumeration of executions against a reference model (DESIGN.md 1, 2.1)
 EXHAUSTIVE = True
 RULE = (
     "case = (PDU kind, header configuration, ID value scheme, parameter set). 8 kinds x 128 header configurations (CRC x "
